@@ -74,14 +74,49 @@ def run_main(args, timeout=20.0):
     return {"rc": rc, "out": out.getvalue(), "err": err.getvalue(), "exc": exc, "where": where}
 
 
-def run_subprocess(args, hashseed=None, timeout=120, cwd=None, stdin=None):
+# `python -m graphtage` under a shifted wall clock: the documents and options are the inputs of a comparison, the time of
+# day is not.  time.* and datetime.* are wrapped before graphtage is imported; argv[1] is the shift in seconds.
+CLOCK_SHIM = r"""
+import sys, time, runpy, datetime as _d
+_shift = float(sys.argv.pop(1))
+_time, _lt, _gm, _sf, _ct, _at = time.time, time.localtime, time.gmtime, time.strftime, time.ctime, time.asctime
+time.time = lambda: _time() + _shift
+time.time_ns = lambda: int((_time() + _shift) * 1e9)
+time.localtime = lambda s=None: _lt(time.time() if s is None else s)
+time.gmtime = lambda s=None: _gm(time.time() if s is None else s)
+time.strftime = lambda f, t=None: _sf(f, time.localtime() if t is None else t)
+time.ctime = lambda s=None: _ct(time.time() if s is None else s)
+time.asctime = lambda t=None: _at(time.localtime() if t is None else t)
+class _DT(_d.datetime):
+    @classmethod
+    def now(cls, tz=None):
+        return _d.datetime.fromtimestamp(time.time(), tz)
+    @classmethod
+    def utcnow(cls):
+        return _d.datetime.utcfromtimestamp(time.time())
+    @classmethod
+    def today(cls):
+        return _d.datetime.fromtimestamp(time.time())
+class _D(_d.date):
+    @classmethod
+    def today(cls):
+        return _d.date.fromtimestamp(time.time())
+_d.datetime, _d.date = _DT, _D
+runpy.run_module("graphtage", run_name="__main__", alter_sys=True)
+"""
+
+
+def run_subprocess(args, hashseed=None, timeout=120, cwd=None, stdin=None, clock_shift=None, extra_env=None):
     env = dict(os.environ)
     env["PYTHONPATH"] = REPO
     if hashseed is not None:
         env["PYTHONHASHSEED"] = str(hashseed)
     env["PYTHONDONTWRITEBYTECODE"] = "1"
+    if extra_env:
+        env.update(extra_env)
+    cmd = [PY, "-m", "graphtage"] if clock_shift is None else [PY, "-c", CLOCK_SHIM, str(clock_shift)]
     try:
-        p = subprocess.run([PY, "-m", "graphtage"] + list(args), stdout=subprocess.PIPE, stderr=subprocess.PIPE,
+        p = subprocess.run(cmd + list(args), stdout=subprocess.PIPE, stderr=subprocess.PIPE,
                            env=env, timeout=timeout, cwd=cwd or "/", input=stdin)
     except subprocess.TimeoutExpired:
         return {"rc": None, "out": b"", "err": b"", "exc": "Timeout"}
